@@ -7,11 +7,11 @@ from concurrent.futures import ThreadPoolExecutor
 import vlib
 import p_make
 
-C14_FIELDS = {"first", "atrev", "at", "atmax", "huge", "hat", "iter", "riter", "post", "rpost"}       # refusal beyond size(), iteration inside the bounds
-C15_FIELDS = {"first", "atrev", "size", "empty", "steps", "hsize", "hat", "iter", "riter", "post", "rpost", "eqd", "eqo", "bend"}
+C14_FIELDS = {"first", "atrev", "at", "atmax", "huge", "hat", "iter", "riter", "post", "rpost", "fwalk", "rwalk"}       # refusal beyond size(), iteration inside the bounds
+C15_FIELDS = {"first", "atrev", "size", "empty", "steps", "hsize", "hat", "iter", "riter", "post", "rpost", "fwalk", "rwalk", "eqd", "eqo", "bend"}
 
 
-C09_FIELDS = {"first", "atrev", "size", "at", "hat", "hsize", "iter", "riter", "post", "rpost"}   # the product type lists its members' types in order
+C09_FIELDS = {"first", "atrev", "size", "at", "hat", "hsize", "iter", "riter", "post", "rpost", "fwalk", "rwalk"}   # the product type lists its members' types in order
 
 
 def mine(pid, field, kind=""):
